@@ -86,11 +86,15 @@ func engineDirsource(ctx *engineCtx) {
 		"feed-\xe9.pb", "\xff.pb", "feed-\xff\xfe", "\xc3.pb"} // the last four: names that are not valid UTF-8 (legal on Linux)
 	kinds := []string{"good", "good", "good", "dir", "empty", "truncated", "corrupt", "dangling", "vanish"}
 	var cases []string
+	slowLeft := 2 // directories read by a slow consumer (each costs a second)
 	layouts := map[string]bool{}
 	kindCount := map[string]int{}
 	far0, far1 := time.Unix(-1<<40, 0), time.Unix(1<<40, 0)
 	for it := 0; it < n; it++ {
 		dir := filepath.Join(base, fmt.Sprintf("d%d", it))
+		if g.coin(0.2) { // the directory's own name is a name like any other: brackets, stars, question marks, backslashes, spaces
+			dir = filepath.Join(base, fmt.Sprintf("d%d-", it)+g.pick([]string{"feeds[2024]", "feeds[1]", "a*b", "what?", "back\\slash", "feeds[", "sp ace", "[a-z]", "{x,y}", "~", "é"}))
+		}
 		os.MkdirAll(dir, 0o755)
 		cnt := g.r.Intn(13)
 		perm := g.r.Perm(len(namePool))
@@ -141,6 +145,22 @@ func engineDirsource(ctx *engineCtx) {
 		var src *journal.DirectoryGtfsrtSource
 		var err error
 		var got []*gtfs.Realtime
+		nGood := 0
+		lastIsGood := false
+		{
+			srt := append([]dirEntry{}, entries...)
+			sort.Slice(srt, func(i, j int) bool { return srt[i].name < srt[j].name })
+			for _, e := range srt {
+				if e.kind == "good" && parseLikeJournal(e.content) != nil {
+					nGood++
+				}
+			}
+			lastIsGood = len(srt) > 0 && srt[len(srt)-1].kind == "good" && parseLikeJournal(srt[len(srt)-1].content) != nil
+		}
+		slow := lastIsGood && slowLeft > 0
+		if slow {
+			slowLeft--
+		}
 		r := guarded(30*time.Second, func() {
 			src, err = journal.NewDirectoryGtfsrtSource(dir)
 			if err != nil {
@@ -152,6 +172,9 @@ func engineDirsource(ctx *engineCtx) {
 				}
 			}
 			for k := 0; k < len(entries)+3; k++ {
+				if slow && k == nGood-1 {
+					time.Sleep(1100 * time.Millisecond) // a consumer that takes its time before asking for the last file
+				}
 				x := src.Next()
 				if x == nil {
 					// then it ends: must keep returning nil
